@@ -128,7 +128,12 @@ def flatten(mdl):
                 edges.append({"src": src, "tgt": [epath, op["name"], inp], "w": "1"})
                 edges.append({"src": [epath, op["name"], output], "tgt": tgt, "w": str(F(e["w"]))})
             else:
-                edges.append({"src": src, "tgt": tgt, "w": str(F(e["w"]))})
+                ed = {"src": src, "tgt": tgt, "w": str(F(e["w"]))}
+                if e.get("delay") is not None:
+                    ed["delay"] = str(F(e["delay"]))
+                if e.get("spread") is not None:
+                    ed["spread"] = str(F(e["spread"]))
+                edges.append(ed)
     walk(mdl["circuit"], "")
     # per-node value updates applied after template construction (update_var / node_values), keyed by full path
     for path, val in mdl.get("post_values", {}).items():
